@@ -23,6 +23,9 @@ FOLLOW = [
     "cobra.flux_analysis.deletion._reaction_deletion",
     "cobra.flux_analysis.deletion._gene_deletion",
     "cobra.flux_analysis.deletion._get_growth",
+    "cobra.flux_analysis.deletion._init_worker",
+    "cobra.flux_analysis.deletion._reaction_deletion_worker",
+    "cobra.flux_analysis.deletion._gene_deletion_worker",
     "cobra.flux_analysis.moma.add_moma",
     "cobra.util.solver.add_absolute_expression",
     "cobra.flux_analysis.variability.find_essential_genes",
@@ -103,7 +106,18 @@ def _interface_to_str(it, ev, c, args, kwargs):
     return "glpk"
 
 
+DECOY = 9.0
+
+
+def _pfba_decoy(it, ev, c, args, kwargs):
+    """pfba(model) as a reference of its own: a solution whose fluxes are all DECOY - distinguishable from the reference
+    the scenarios hand in (a MOMA problem built around it was not built around the given solution)."""
+    model = args[0] if args else kwargs["model"]
+    return SolutionLP(Formulation(model), list(model.reactions), WILD, {r.id: DECOY for r in model.reactions})
+
+
 STUBS = {"cobra.util.solver.interface_to_str": _interface_to_str,
+         "cobra.flux_analysis.parsimonious.pfba": _pfba_decoy, "cobra.flux_analysis.pfba": _pfba_decoy,
          "cobra.util.solver.add_cons_vars_to_problem": lambda it, ev, c, a, k: a[0].add_cons_vars(a[1]),
          "cobra.util.solver.remove_cons_vars_from_problem": lambda it, ev, c, a, k: a[0].remove_cons_vars(a[1])}
 
@@ -154,20 +168,26 @@ def check_deletions(ctx, rule: str) -> None:
     scenarios.append(("single_gene_deletion", "gene", "fba", False, [[]]))
     scenarios.append(("double_reaction_deletion", "reaction", "fba", False, [["R1", "R2"], []]))
     scenarios.append(("double_gene_deletion", "gene", "fba", True, [[], ["gA"]]))
-    for fname, kind, method, objects, lists in scenarios:
+    # the same through the worker pool (stand-in pool: initializer, tasks one after the other, unordered results)
+    pooled = {len(scenarios): 2, len(scenarios) + 1: 3, len(scenarios) + 2: 2, len(scenarios) + 3: 2}
+    scenarios.append(("single_gene_deletion", "gene", "linear moma", False, [None]))
+    scenarios.append(("double_reaction_deletion", "reaction", "fba", True, [["R1", "R2"], ["R2", "R4", "R5", "R1"]]))
+    scenarios.append(("single_reaction_deletion", "reaction", "linear moma", False, [["R5", "R3", "R1"]]))
+    scenarios.append(("double_gene_deletion", "gene", "fba", False, [None, ["gD", "gA"]]))
+    for s_idx, (fname, kind, method, objects, lists) in enumerate(scenarios):
         model = _model()
         oracle: _Oracle = model.script
         it = _interp(ctx)
         fn = prog.func("cobra.flux_analysis.deletion", fname)
         args = [_as(kind, model, l, objects) for l in lists]
-        kwargs: Dict[str, Any] = {"method": method, "processes": 1}
+        kwargs: Dict[str, Any] = {"method": method, "processes": pooled.get(s_idx, 1)}
         if len(lists) == 2 and lists[0] is None and lists[1] is not None:
             kwargs[("reaction" if kind == "reaction" else "gene") + "_list2"] = args[1]
             args = []
         if method != "fba":
             ref = SolutionLP(Formulation(model), list(model.reactions), WILD, {"R1": 1.5, "R2": -2.25, "R3": 0.875, "R4": -0.5, "R5": 0.0})
             kwargs["solution"] = ref
-        what = f"{fname}({', '.join('None' if l is None else str(l) for l in lists)}, as {'objects' if objects else 'ids'}, method={method!r})"
+        what = f"{fname}({', '.join('None' if l is None else str(l) for l in lists)}, as {'objects' if objects else 'ids'}, method={method!r}{', processes=' + str(kwargs['processes']) if kwargs['processes'] > 1 else ''})"
         try:
             out = _run(what, lambda: it.call(fn, [model] + args, kwargs))
         except EvalRaise as exc:
@@ -208,6 +228,11 @@ def check_deletions(ctx, rule: str) -> None:
                 problems.setdefault("solved", f"{what}: a problem with objective {f.objective_name} is solved")
             if method != "fba" and k != "moma":
                 problems.setdefault("solved", f"{what}: a problem without the MOMA set-up is solved")
+        if method != "fba":
+            for ko, k, f in oracle.log:
+                if k == "moma" and any(b is not None and abs(abs(b) - DECOY) < 1e-12 for c_ in f.constraints for b in (c_.lb, c_.ub)):
+                    problems.setdefault("solved", f"{what}: the minimal-adjustment problem is built around a reference the function computed itself (pFBA of the model), not around the solution it was given: the reported growth values are adjustments to the wrong flux distribution")
+                    break
         solved = [ko for ko, k, f in oracle.log]
         need = {(ids if kind == "reaction" else _implied(ids)) for ids in want}
         if not need <= set(solved):
